@@ -304,6 +304,7 @@ def run_impl(case):
         alt_many = batch([other_layout(o, ob, pspace) for o in many])
         trial("alt_layout_single", alt_one)
         trial("alt_layout_batchn", alt_many)
+    extra_perm = None
     # malformed shapes
     if not isinstance(ob, spaces.Dict):
         arr = np.asarray(batch(many))
@@ -324,6 +325,17 @@ def run_impl(case):
             late = {k: (np.asarray(bm_[k])[:, None] if j == len(keys) - 1 else bm_[k]) for j, k in enumerate(keys)}
             trial("dict_extra_axis_late", late)
             trial("dict_extra_axis_first", {k: late[k] for k in reversed(keys)})
+            # seeding round 5 (C11_5): a Dict observation whose insertion order differs from the space's (sorted) key order is the
+            # same observation (dicts compare equal, Dict.contains accepts it; environments build their dicts in any order)
+            perm_one = {k: one[k] for k in reversed(keys)}
+            perm_many = {k: bm_[k] for k in reversed(keys)}
+            trial("perm_single", perm_one)
+            trial("perm_batchn", perm_many)
+            try:
+                extra_perm = {"single": bool(np.array_equal(model.predict(one, deterministic=True)[0], model.predict(perm_one, deterministic=True)[0])),
+                              "batchn": bool(np.array_equal(model.predict(bm_, deterministic=True)[0], model.predict(perm_many, deterministic=True)[0]))}
+            except Exception as ex:  # noqa: BLE001
+                extra_perm = {"exception": type(ex).__name__ + ": " + str(ex)[:160]}
     # float32 copies of images given to predict() for a uint8 image space must be scaled like the uint8 originals
     if has_img:
         def as_float(o, space_):
@@ -413,7 +425,7 @@ def run_impl(case):
                 feat_probs.append((kind, f"{tag}: network input {str(got.reshape(-1)[:8].tolist())} is not the expected encoding {str(exp.reshape(-1)[:8].tolist())} of the observation"))
 
     bm = batch(many)
-    extra = {"gym_tuple": extra_tuple}
+    extra = {"gym_tuple": extra_tuple, "perm": extra_perm}
     # (a) state / episode_start are passed through untouched by non-recurrent policies
     try:
         st_in = (np.zeros((1, 2), dtype=np.float32),)
@@ -453,9 +465,9 @@ def run_impl(case):
         got = rec.pop("feat", None)
         gotd = rec.pop("feat_dict", None)
         g = gotd if isinstance(pspace, spaces.Dict) else got
-        if rec["name"] in ("batchn", "alt_layout_batchn", "float_image_batchn") and "exception" not in rec:
+        if rec["name"] in ("batchn", "alt_layout_batchn", "float_image_batchn", "perm_batchn") and "exception" not in rec:
             check_feat("predict(" + rec["name"] + ")", g, bm)
-        if rec["name"] in ("single", "alt_layout_single", "float_image_single") and "exception" not in rec:
+        if rec["name"] in ("single", "alt_layout_single", "float_image_single", "perm_single") and "exception" not in rec:
             check_feat("predict(" + rec["name"] + ")", g, batch([one]))
     if isinstance(train_feat, str):
         feat_probs.append(("oracle-training-features", train_feat))
@@ -560,9 +572,9 @@ def judge(case, impl, vals):
         if t["out_shape"] != greedy[1:]:
             probs.append(("model-correspondence-shape", f"{where}: predict returned shape {t['out_shape']}, model {greedy[1:]}"))
         # ---- oracle from the property text ----
-        wellformed = name in ("single", "single_stochastic", "batch1", "batchn", "python_int", "eps_single", "eps_batchn", "alt_layout_single", "alt_layout_batchn", "float_image_single", "float_image_batchn")
+        wellformed = name in ("single", "single_stochastic", "batch1", "batchn", "python_int", "eps_single", "eps_batchn", "alt_layout_single", "alt_layout_batchn", "float_image_single", "float_image_batchn", "perm_single", "perm_batchn")
         if wellformed:
-            batched = name in ("batch1", "batchn", "eps_batchn", "alt_layout_batchn", "float_image_batchn")
+            batched = name in ("batch1", "batchn", "eps_batchn", "alt_layout_batchn", "float_image_batchn", "perm_batchn")
             nb = 1 if name == "batch1" else case["n"]
             want = ([nb] if batched else []) + ash
             if t["out_shape"] != want:
@@ -576,7 +588,7 @@ def judge(case, impl, vals):
         if not t["params_unchanged"]:
             probs.append(("oracle-parameters-mutated", f"{where}: policy parameters changed during predict"))
     for t in impl["trials"]:
-        if "exception" in t and t["name"] in ("single", "single_stochastic", "batch1", "batchn", "python_int", "eps_single", "eps_batchn", "alt_layout_single", "alt_layout_batchn", "float_image_single", "float_image_batchn"):
+        if "exception" in t and t["name"] in ("single", "single_stochastic", "batch1", "batchn", "python_int", "eps_single", "eps_batchn", "alt_layout_single", "alt_layout_batchn", "float_image_single", "float_image_batchn", "perm_single", "perm_batchn"):
             probs.append(("oracle-wellformed-input-rejected", f"{t['name']} (input shape {t['in_shape']}): {t['exception']}"))
     probs += [tuple(p) for p in impl["feat_probs"]]
     xt = impl.get("extra", {})
@@ -593,6 +605,12 @@ def judge(case, impl, vals):
         k += 1
     if xt.get("gym_tuple") not in (None, "ValueError") and not (ps["kind"] == "box" and ps["shape"] == []):
         probs.append(("oracle-gym-api-tuple-not-refused", f"predict((obs, info)) gave {xt['gym_tuple']} instead of the documented ValueError"))
+    pm = xt.get("perm")
+    if pm:
+        if "exception" in pm:
+            probs.append(("oracle-dict-key-order-rejected", f"the same Dict observation with its keys in another order: {pm['exception']}"))
+        elif not (pm["single"] and pm["batchn"]):
+            probs.append(("oracle-dict-key-order-changes-action", f"deterministic predict() returns a different action for the same Dict observation given with its keys in another order: {pm}"))
     st = xt.get("state")
     if st:
         if "exception" in st:
